@@ -323,7 +323,27 @@ class Evaluator:
             return True
         return bool(v)
 
+    _DUNDER = {ast.Add: "__add__", ast.Sub: "__sub__", ast.Mult: "__mul__", ast.FloorDiv: "__floordiv__", ast.Mod: "__mod__"}
+    _RDUNDER = {ast.Add: "__radd__", ast.Sub: "__rsub__", ast.Mult: "__rmul__"}
+
+    def _obj_method(self, o, name, args):
+        for m2, c2 in self.repo.mro(o.mod, o.cls):
+            if (c2, name) in self.method_hooks:
+                return True, self.method_hooks[(c2, name)](o, *args)
+            mm = self.repo.modules[m2]
+            if c2 + "." + name in mm.functions:
+                return True, self._invoke(mm, mm.functions[c2 + "." + name], c2, list(args), {}, o)
+        return False, None
+
     def _binop(self, op, a, b):
+        if isinstance(a, Obj) and a.mod != "builtins" and op in self._DUNDER:
+            ok, r = self._obj_method(a, self._DUNDER[op], [b])
+            if ok:
+                return r
+        if isinstance(b, Obj) and b.mod != "builtins" and op in self._RDUNDER:
+            ok, r = self._obj_method(b, self._RDUNDER[op], [a])
+            if ok:
+                return r
         if isinstance(a, Obj) or isinstance(b, Obj):
             raise Undecided("operator on objects")
         try:
@@ -449,6 +469,8 @@ class Evaluator:
         if isinstance(e, ast.Attribute):
             o = self._expr(e.value, env, mod, cls)
             if isinstance(o, Obj):
+                if e.attr == "__class__" and o.mod != "builtins":
+                    return ClassRef(o.mod, o.cls)
                 if e.attr in o.attrs:
                     return o.attrs[e.attr]
                 r = self.repo.resolve_method(o.mod, o.cls, e.attr) if o.mod != "builtins" else None
@@ -531,7 +553,7 @@ class Evaluator:
                         raise Undecided("isinstance against %r" % (t,))
                 return False
             if nm in ("len", "int", "bytes", "str", "bool", "list", "tuple", "sorted", "min", "max", "sum", "abs", "range", "reversed", "any", "all",
-                      "enumerate", "zip", "hex", "ord", "chr", "divmod", "set", "bytearray", "dict", "pow"):
+                      "enumerate", "zip", "hex", "ord", "chr", "divmod", "set", "bytearray", "dict", "pow", "bin", "oct", "round", "repr"):
                 args = [self._expr(a, env, mod, cls) for a in e.args]
                 kw = {k.arg: self._expr(k.value, env, mod, cls) for k in e.keywords}
                 if any(isinstance(a, (Obj, ClassRef)) for a in args):
@@ -568,7 +590,7 @@ class Evaluator:
             _, m2, fn2, bound = f
             qn = _qual(m2, fn2)
             if tuple(qn.split(".", 1)) in self.method_hooks:
-                return self.method_hooks[tuple(qn.split(".", 1))](*args, **kw)
+                return self.method_hooks[tuple(qn.split(".", 1))](bound, *args, **kw)
             c2 = qn.rsplit(".", 1)[0] if "." in qn else None
             decs = decorators(fn2)
             if "property" in decs:
@@ -594,7 +616,10 @@ class Evaluator:
         if isinstance(f, ClassRef):
             o = Obj(f.mod, f.cls)
             r = self.repo.resolve_method(f.mod, f.cls, "__init__")
-            if r:
+            hooked = next(((c2, "__init__") for _, c2 in self.repo.mro(f.mod, f.cls) if (c2, "__init__") in self.method_hooks), None)
+            if hooked:
+                self.method_hooks[hooked](o, *args, **kw)
+            elif r:
                 qn = _qual(r[0], r[1])
                 self._invoke(r[0], r[1], qn.rsplit(".", 1)[0], args, kw, o)
             elif args or kw:
